@@ -516,6 +516,14 @@ func useTemplates() []Tmpl {
 		c, u := callNew(t, env)
 		return []*Node{b.stmt(x+" := "+c, u), b.stmt(y+" := "+x+"."+env.Reset.Name, &Use{Kind: UMethodRef, Fn: env.Reset}), b.stmt(y + "()")}
 	}})
+	// a parenthesised callee is still a call of the function / method
+	ts = append(ts, Tmpl{Name: "paren-callee-call", Cat: TONL, Make: func(b *B, t *Type, env *Env) []*Node {
+		x := b.v()
+		c, u := callNew(t, env)
+		return []*Node{b.stmt(x+" := "+c, u),
+			b.stmt("("+x+"."+env.Reset.Name+")()", &Use{Kind: UMethodRef, Fn: env.Reset, Call: true, Feature: "paren-callee"}),
+			b.stmt("("+q(t.Pkg)+env.Helper.Name+")()", &Use{Kind: UFuncRef, Fn: env.Helper, Call: true, Feature: "paren-callee"})}
+	}})
 	// method expressions: (*T).M(x) and T.M(*x) call the method just like x.M()
 	ts = append(ts, Tmpl{Name: "method-expression-call", Cat: TONL, Make: func(b *B, t *Type, env *Env) []*Node {
 		x := b.v()
